@@ -34,7 +34,7 @@ import (
 type (
 	// OAuth2TokenIntrospect defines the validator configuration for OAuth2 token introspection
 	OAuth2TokenIntrospect struct {
-		EndPoint     string `yaml:"endPoint" jsonschema:"required"`
+		EndPoint     string `yaml:"endPoint" jsonschema:"required,format=url"`
 		BasicAuth    string `yaml:"basicAuth" jsonschema:"omitempty"`
 		ClientID     string `yaml:"clientId" jsonschema:"omitempty"`
 		ClientSecret string `yaml:"clientSecret" jsonschema:"omitempty"`
@@ -117,7 +117,10 @@ func (v *OAuth2Validator) introspectToken(tokenStr string) (*tokenInfo, error) {
 		body.WriteString(v.spec.TokenIntrospect.ClientSecret)
 	}
 
-	r, _ := http.NewRequest(http.MethodPost, v.spec.TokenIntrospect.EndPoint, &body)
+	r, e := http.NewRequest(http.MethodPost, v.spec.TokenIntrospect.EndPoint, &body)
+	if e != nil {
+		return nil, e
+	}
 	if v.spec.TokenIntrospect.ClientID != "" {
 		r.Header.Set("Content-Type", "application/x-www-form-urlencoded")
 	} else if v.spec.TokenIntrospect.BasicAuth != "" {
